@@ -802,28 +802,28 @@ fn gen_follow_program(rng: &mut Rng, exists: &mut BTreeSet<String>) -> Scenario 
     }
     let name = rng.pick(&NAMES).to_string();
     let (hw, hr) = *rng.pick(&[(1, 2), (2, 1), (1, 3), (3, 2)]);
-    // the writer is opened first when the file does not exist yet
-    let writer_first = !exists.contains(&name) || rng.chance(1, 2);
-    let open_w = StmtKind::Open {
-        name: name.clone(),
-        mode: Mode::Append,
-        handle: hw,
-        len: None,
-    };
-    let open_r = StmtKind::Open {
+    // when the file does not exist yet, a writer creates it first
+    if !exists.contains(&name) {
+        main.push(ids.st(StmtKind::Open {
+            name: name.clone(),
+            mode: Mode::Append,
+            handle: hw,
+            len: None,
+        }));
+        main.push(ids.st(StmtKind::Print {
+            dev: Dev::File(hw),
+            items: vec![PItem::E(Expr::Str("first".into()))],
+            using: None,
+        }));
+        main.push(ids.st(StmtKind::Close(vec![hw])));
+    }
+    main.push(ids.st(StmtKind::Open {
         name: name.clone(),
         mode: Mode::Input,
         handle: hr,
         len: None,
-    };
-    if writer_first {
-        main.push(ids.st(open_w));
-        main.push(ids.st(open_r));
-    } else {
-        main.push(ids.st(open_r));
-        main.push(ids.st(open_w));
-    }
-    exists.insert(name);
+    }));
+    exists.insert(name.clone());
     let eof_trace = |ids: &mut Ids| {
         ids.st(StmtKind::Print {
             dev: Dev::Screen,
@@ -865,7 +865,14 @@ fn gen_follow_program(rng: &mut Rng, exists: &mut BTreeSet<String>) -> Scenario 
             }));
             main.push(trace_vars(&mut ids));
         }
-        // the writer adds one or two lines, the last one sometimes unfinished
+        // a writer on another handle adds one or two lines and closes: from then on the
+        // text is the reader's to see (while the writer is open it need not be)
+        main.push(ids.st(StmtKind::Open {
+            name: name.clone(),
+            mode: Mode::Append,
+            handle: hw,
+            len: None,
+        }));
         for k in 0..(1 + rng.below(2)) {
             let mut items = vec![PItem::E(Expr::Str(format!("r{}k{}", round, k)))];
             if rng.chance(1, 2) {
@@ -881,6 +888,7 @@ fn gen_follow_program(rng: &mut Rng, exists: &mut BTreeSet<String>) -> Scenario 
                 using: None,
             }));
         }
+        main.push(ids.st(StmtKind::Close(vec![hw])));
         main.push(eof_trace(&mut ids));
     }
     // and the rest
